@@ -6,7 +6,7 @@ P=$1; MODE=$2
 cd /verif
 SRC=/tmp/seed_${P}_out; [ -d $SRC ] || SRC=/root/seeded_stash
 for k in 1 2 3; do
-  if [ -d /tmp/seed_${P}_out/$k ]; then d=/tmp/seed_${P}_out/$k; elif [ -d /verif/seeded/$P-$k ]; then d=/verif/seeded/$P-$k; else d=/root/seeded_stash/$P-$k; fi
+  if [ -n "$SEEDDIR" ]; then d=$SEEDDIR/$k; elif [ -d /tmp/seed_${P}_out/$k ]; then d=/tmp/seed_${P}_out/$k; elif [ -d /verif/seeded/$P-$k ]; then d=/verif/seeded/$P-$k; else d=/root/seeded_stash/$P-$k; fi
   [ -f $d/patch.diff ] || continue
   if [ "$MODE" = "--inplace" ]; then
     git -C /repo apply --check $d/patch.diff 2>/dev/null || { echo "seed $P-$k: patch does not apply"; continue; }
